@@ -382,23 +382,35 @@ def include_rules(ctx, modname: str, as_rule: str, only: tuple = ()) -> None:
 
     from ..report import Report
 
+    import copy as _copy
+
     mod = importlib.import_module(f"sa.rules.{modname}")
+    # one run of a rule module per analysis (several properties adopt rules of the same module,
+    # directly and through each other)
+    cache = ctx.a.__dict__.setdefault("_include_cache", {})
+    if modname not in cache:
 
-    class _Sub:
-        pass
+        class _Sub:
+            pass
 
-    sub = _Sub()
-    sub.p, sub.a, sub.tier = ctx.p, ctx.a, ctx.tier
-    sub.thorough = ctx.tier == "thorough"
-    sub.rep = Report(ctx.rep.prop, ctx.tier, ctx.rep.seed)
-    mod.run(sub)
-    for i in sub.rep.instances:
-        if only and i.rule not in only:
+        sub = _Sub()
+        sub.p, sub.a, sub.tier = ctx.p, ctx.a, ctx.tier
+        sub.thorough = ctx.tier == "thorough"
+        sub.rep = Report(ctx.rep.prop, ctx.tier, ctx.rep.seed)
+        cache[modname] = None  # a cycle of includes would otherwise recurse for ever
+        mod.run(sub)
+        cache[modname] = (list(sub.rep.instances), set(sub.rep.functions_analysed))
+    if cache[modname] is None:
+        raise AnalysisError(f"include cycle through rule module {modname}")
+    insts, funcs = cache[modname]
+    for i0 in insts:
+        if only and i0.rule not in only:
             continue
+        i = _copy.copy(i0)
         i.why = f"[{i.rule}] {i.why}"
         i.rule = as_rule
         ctx.rep.instances.append(i)
-    ctx.rep.functions_analysed |= sub.rep.functions_analysed
+    ctx.rep.functions_analysed |= funcs
 
 
 def include_fn(ctx, fn, as_rule: str, only: tuple = ()) -> None:
